@@ -86,4 +86,16 @@ CHECKS["C12"] = {
     "note": "Semantic equality is decided on a complete truth table (A) or dedicated documents (B), not on all JSON values. Purely associative regroupings ((a&&b)&&c vs a&&(b&&c)) are not observable and not flagged.",
     "technique": T_EXH,
 }
+CHECKS["C17"] = {
+    "text": "Stateless exploration of the real evaluator's complete tree of random choices: the name `random` inside jsonpath_rfc9535.segments/.selectors is rebound to an enumerating chooser (depth-first, prefix replay, one real find() per leaf; sample() outcomes enumerated up to object identity). Inputs: 12 queries x all 9 905 JSON trees with <=5 nodes (98 245 with <=6 in thorough), 4 descendant queries x all array-only container skeletons with <=7 (8) nodes, and the repository's 10 nondeterminism cases. Validity: every leaf result is in the reference model's permitted set. Exhaustiveness: the union of leaf results equals that set. 3.8 M executions in quick.",
+    "ref": "DESIGN.md section 5, C17",
+    "note": "Assumes all randomness flows through the module-level name `random` of the two modules (a replayed prefix meeting a different arity is a hard error). Open known finding F-C17-1 (traversal not exhaustive) is listed case by case; validity holds everywhere explored.",
+    "technique": "stateless exploration of the choice tree of the real code (enumerating random source), exact set comparison with reference model",
+}
+CHECKS["C18"] = {
+    "text": "Limits 1..5 x both modes x every container skeleton with <=6 (7) containers in 3 container and 2 leaf flavours; chains at nesting limit-1..limit+2 for limits 1..5, 100, 200 with array/object/alternating links, scalar/empty bottoms and the deep branch alone/first/middle/last; 12 cyclic structures (self-loops, 2-/3-cycles, cycles below a prefix, branching cycles for limits <=4). Deterministic mode: one execution per input; nondeterministic mode: the complete choice tree for limits <=4 (5) (capped at 3 000 / 20 000 executions per input, cap hits are reported) and all leaves within 1 (2) deviations above. nesting <= limit => the reference result; otherwise JSONPathRecursionError within a 5 s watchdog and a 200 000-node budget, never RecursionError.",
+    "ref": "DESIGN.md section 5, C18",
+    "note": "Limits above 200 are not explored (the deterministic visitor recurses ~2 Python frames per level; configured limits of several hundred reach the interpreter's own limit - recorded in DESIGN.md as out of the explored range). Branching cycles only for small limits.",
+    "technique": "bounded-exhaustive enumeration of shapes x limits; choice-tree exploration of the real code in nondeterministic mode (deviation-bounded for large limits)",
+}
 PENDING = {}
